@@ -766,6 +766,12 @@ type replayFile struct {
 }
 
 func writeReplayFile(file string, h harnessDecl, f *Finding) {
+	if *flagTier != "quick" {
+		if f.Model == nil {
+			f.Model = map[string]string{}
+		}
+		f.Model["zz.tier"] = "1" // zzThorough() in the native replay
+	}
 	rf := replayFile{Property: h.Opts.Prop, Harness: h.Name, Package: h.RelDir, Kind: f.Kind, Label: f.Label, Pos: f.Pos, Vars: f.Model, Lens: f.Lens, Path: f.Path}
 	data, _ := json.MarshalIndent(rf, "", " ")
 	os.WriteFile(file, data, 0o644)
